@@ -103,10 +103,10 @@ def run_job(build, job, trace=False):
     res['failed'] = real
     if trace:
         res['trace'] = out
-    if unknown:
-        res.update(verdict='inconclusive', why='UNKNOWN properties')
-    elif real:
+    if real:
         res['verdict'] = 'violated'
+    elif unknown:
+        res.update(verdict='inconclusive', why='UNKNOWN properties')
     elif not wit:
         res.update(verdict='inconclusive', why='vacuous: witness assertion not reachable')
     else:
